@@ -12,6 +12,7 @@ class MemoryStorage(object):
         # Properties
         self.block_size = block_size
         self.array = bytearray()
+        self.cursor = 0
 
     def __len__(self):
         return len(self.array)
@@ -25,7 +26,14 @@ class MemoryStorage(object):
         self.array = bytearray()
 
     # Method reading a block in the bytearray
-    def read(self, block):
+    # NOTE: like the file storage, reading without a block reads the block
+    # following the last one read (used to read a node's tail)
+    def read(self, block=None):
+        if block is None:
+            block = self.cursor
+
+        self.cursor = block + self.block_size
+
         try:
             return self.array[block : block + self.block_size] or None
         except IndexError:
